@@ -1,0 +1,284 @@
+//! Seams for deterministic simulation. Compiled only with `--cfg fastrace_verif`.
+//! With no hooks installed every shim passes through to the real primitive.
+
+use ::std::sync::atomic::AtomicPtr;
+use ::std::sync::atomic::Ordering;
+use ::std::time::Duration;
+
+pub const P_SEND_CMD: u32 = 1; // a = kind (0 start,1 drop,2 commit,3 submit) | force<<7 | items<<8, b = first collect id (log only)
+pub const P_PUSH: u32 = 2; // a = 0 replay-of-pending / 1 new value / 2 drop-flush                    (yield)
+pub const P_PUSH_OUTCOME: u32 = 3; // a = as above, b = 1 if ring is full (push will fail)           (log only)
+pub const P_PARKED: u32 = 4; // value parked in the overflow list                                     (log only)
+pub const P_RECV_EMPTY: u32 = 5; // between an empty pop and is_abandoned()                           (yield)
+pub const P_DRAIN_RX: u32 = 6; // before a receiver is drained; a = position in this pass               (yield)
+pub const P_CYCLE_BEGIN: u32 = 7;
+pub const P_CYCLE_END: u32 = 8;
+pub const P_RX_CLOSED: u32 = 9;
+pub const P_REGISTER: u32 = 11; // a thread registers its receiver (first command of the thread)          (log only)
+pub const P_TLS_GONE: u32 = 10; // a command was issued after the thread-local sender was destroyed     (log only)
+
+pub struct Hooks {
+    pub point: fn(kind: u32, a: u64, b: u64),
+    pub lock: fn(id: usize),
+    pub unlock: fn(id: usize),
+    pub spawn: fn(name: String, f: Box<dyn FnOnce() + Send + 'static>) -> u64,
+    pub join: fn(handle: u64),
+    pub sleep: fn(Duration),
+    pub now_ns: fn() -> u64,
+    pub unix_ns: fn() -> u64,
+    pub random: fn() -> u64,
+    pub ring_capacity: fn(default: usize) -> usize,
+}
+
+static HOOKS: AtomicPtr<Hooks> = AtomicPtr::new(::std::ptr::null_mut());
+
+pub fn install(h: &'static Hooks) {
+    HOOKS.store(h as *const Hooks as *mut Hooks, Ordering::SeqCst);
+}
+
+pub fn uninstall() {
+    HOOKS.store(::std::ptr::null_mut(), Ordering::SeqCst);
+}
+
+#[inline]
+pub fn hooks() -> Option<&'static Hooks> {
+    let p = HOOKS.load(Ordering::Acquire);
+    if p.is_null() { None } else { Some(unsafe { &*p }) }
+}
+
+#[inline]
+pub fn point(kind: u32, a: u64, b: u64) {
+    if let Some(h) = hooks() {
+        (h.point)(kind, a, b)
+    }
+}
+
+pub use crate::collector::global_collector::verif_impl::*;
+
+/// Shadows `::std` inside the modules that spawn, join or sleep.
+pub mod std {
+    pub use ::std::*;
+
+    pub mod thread {
+        pub use ::std::thread::*;
+
+        pub struct Builder {
+            name: Option<String>,
+        }
+
+        pub enum JoinHandle<T> {
+            Real(::std::thread::JoinHandle<T>),
+            Sim(u64, ::std::marker::PhantomData<T>),
+        }
+
+        impl Builder {
+            pub fn new() -> Self {
+                Builder { name: None }
+            }
+
+            pub fn name(mut self, name: String) -> Self {
+                self.name = Some(name);
+                self
+            }
+
+            pub fn spawn<F>(self, f: F) -> ::std::io::Result<JoinHandle<()>>
+            where F: FnOnce() + Send + 'static {
+                match crate::verif::hooks() {
+                    Some(h) => Ok(JoinHandle::Sim(
+                        (h.spawn)(self.name.unwrap_or_default(), Box::new(f)),
+                        ::std::marker::PhantomData,
+                    )),
+                    None => {
+                        let mut b = ::std::thread::Builder::new();
+                        if let Some(n) = self.name {
+                            b = b.name(n);
+                        }
+                        b.spawn(f).map(JoinHandle::Real)
+                    }
+                }
+            }
+        }
+
+        impl JoinHandle<()> {
+            pub fn join(self) -> ::std::thread::Result<()> {
+                match self {
+                    JoinHandle::Real(h) => h.join(),
+                    JoinHandle::Sim(id, _) => {
+                        (crate::verif::hooks().unwrap().join)(id);
+                        Ok(())
+                    }
+                }
+            }
+        }
+
+        pub fn sleep(d: ::std::time::Duration) {
+            match crate::verif::hooks() {
+                Some(h) => (h.sleep)(d),
+                None => ::std::thread::sleep(d),
+            }
+        }
+    }
+}
+
+/// `parking_lot::Mutex` whose acquisition is announced to the simulator first.
+pub struct Mutex<T> {
+    inner: parking_lot::Mutex<T>,
+}
+
+pub struct MutexGuard<'a, T> {
+    guard: Option<parking_lot::MutexGuard<'a, T>>,
+    id: usize,
+}
+
+impl<T> Mutex<T> {
+    pub const fn new(v: T) -> Self {
+        Mutex {
+            inner: parking_lot::Mutex::new(v),
+        }
+    }
+
+    pub fn lock(&self) -> MutexGuard<'_, T> {
+        let id = self as *const _ as usize;
+        if let Some(h) = hooks() {
+            (h.lock)(id);
+        }
+        MutexGuard {
+            guard: Some(self.inner.lock()),
+            id,
+        }
+    }
+}
+
+impl<T> ::std::ops::Deref for MutexGuard<'_, T> {
+    type Target = T;
+    fn deref(&self) -> &T {
+        self.guard.as_ref().unwrap()
+    }
+}
+
+impl<T> ::std::ops::DerefMut for MutexGuard<'_, T> {
+    fn deref_mut(&mut self) -> &mut T {
+        self.guard.as_mut().unwrap()
+    }
+}
+
+impl<T> Drop for MutexGuard<'_, T> {
+    fn drop(&mut self) {
+        self.guard.take();
+        if let Some(h) = hooks() {
+            (h.unlock)(self.id);
+        }
+    }
+}
+
+/// Stand-ins for `fastant::{Instant, Anchor}` reading the simulated clock.
+pub mod clock {
+    use ::std::time::Duration;
+
+    #[derive(Clone, Copy, Debug, PartialEq, Eq, PartialOrd, Ord)]
+    pub struct Instant(u64);
+
+    #[derive(Clone, Copy)]
+    pub struct Anchor {
+        unix_ns: u64,
+        mono_ns: u64,
+    }
+
+    fn real_now() -> u64 {
+        static START: ::std::sync::OnceLock<::std::time::Instant> = ::std::sync::OnceLock::new();
+        START.get_or_init(::std::time::Instant::now).elapsed().as_nanos() as u64 + 1
+    }
+
+    impl Instant {
+        pub const ZERO: Instant = Instant(0);
+
+        pub fn now() -> Instant {
+            match crate::verif::hooks() {
+                Some(h) => Instant((h.now_ns)()),
+                None => Instant(real_now()),
+            }
+        }
+
+        pub fn elapsed(&self) -> Duration {
+            Duration::from_nanos(Instant::now().0.saturating_sub(self.0))
+        }
+
+        pub fn as_unix_nanos(&self, anchor: &Anchor) -> u64 {
+            if self.0 > anchor.mono_ns {
+                anchor.unix_ns + (self.0 - anchor.mono_ns)
+            } else {
+                anchor.unix_ns - (anchor.mono_ns - self.0)
+            }
+        }
+    }
+
+    impl Anchor {
+        pub fn new() -> Anchor {
+            match crate::verif::hooks() {
+                Some(h) => Anchor {
+                    unix_ns: (h.unix_ns)(),
+                    mono_ns: (h.now_ns)(),
+                },
+                None => Anchor {
+                    unix_ns: ::std::time::SystemTime::now()
+                        .duration_since(::std::time::UNIX_EPOCH)
+                        .unwrap()
+                        .as_nanos() as u64,
+                    mono_ns: real_now(),
+                },
+            }
+        }
+    }
+}
+
+/// Shadows the `rand` crate in `collector::id`.
+pub mod rand {
+    pub trait FromSim {
+        fn from_sim(f: &mut dyn FnMut() -> u64) -> Self;
+        fn real() -> Self;
+    }
+    impl FromSim for u32 {
+        fn real() -> Self {
+            ::rand::random()
+        }
+        fn from_sim(f: &mut dyn FnMut() -> u64) -> Self {
+            f() as u32
+        }
+    }
+    impl FromSim for u64 {
+        fn real() -> Self {
+            ::rand::random()
+        }
+        fn from_sim(f: &mut dyn FnMut() -> u64) -> Self {
+            f()
+        }
+    }
+    impl FromSim for u128 {
+        fn real() -> Self {
+            ::rand::random()
+        }
+        fn from_sim(f: &mut dyn FnMut() -> u64) -> Self {
+            ((f() as u128) << 64) | f() as u128
+        }
+    }
+
+    pub fn random<T: FromSim>() -> T {
+        match crate::verif::hooks() {
+            Some(h) => T::from_sim(&mut || (h.random)()),
+            None => T::real(),
+        }
+    }
+}
+
+/// Shadows `crate::util::spsc` in `global_collector` so the ring capacity is a knob.
+pub mod spsc {
+    pub use crate::util::spsc::*;
+
+    pub fn bounded<T>(capacity: usize) -> (Sender<T>, Receiver<T>) {
+        let capacity = match crate::verif::hooks() {
+            Some(h) => (h.ring_capacity)(capacity),
+            None => capacity,
+        };
+        crate::util::spsc::bounded(capacity)
+    }
+}
